@@ -43,12 +43,7 @@ def _frac(rep):
     return rep is not None and rep[0] in ("fraction", "percent")
 
 
-def kf_fraction_with_foreign_material(check_name, desc, viol):
-    """Open finding KF-C03-1: accessor paths combine fraction/percent loading with a material representation other than
-    the stored one in the wrong order (loading(), loading_at(), pressure_at(), both classes)."""
-    if viol.tag not in ("loading_value", "loading_vs_clone", "input_interpretation", "model_loading_value",
-                        "model_input_interpretation"):
-        return False
+def _kf_parts(desc):
     iso = desc["iso"]
     stored_l = (iso["units"]["loading_basis"], None)
     stored_m = (iso["units"]["material_basis"], iso["units"]["material_unit"])
@@ -56,19 +51,36 @@ def kf_fraction_with_foreign_material(check_name, desc, viol):
     rl, rm = req.get("lrep"), req.get("mrep")
     rl = tuple(rl) if rl else None
     rm = tuple(rm) if rm else None
-    return (rm is not None and rm != stored_m) and (_frac(stored_l) or _frac(rl))
+    mdiff = rm is not None and rm != stored_m
+    target_l = rl if rl is not None else stored_l
+    return _frac(stored_l), _frac(target_l), mdiff
+
+
+def kf_fraction_with_foreign_material(check_name, desc, viol):
+    """Open finding KF-C03-1: accessor paths combine fraction/percent loading with a material representation other than
+    the stored one in the wrong order. Narrow: exactly the sub-cases that are wrong on the pinned tree (mapped
+    empirically over 4500 generated cases):
+      * PointIsotherm.loading() and ModelIsotherm.loading_at()/loading(): STORED basis fraction/percent;
+      * PointIsotherm.loading_at() output and pressure_at() input: TARGET basis fraction/percent
+    - each only together with a requested material representation that differs from the stored one. The complementary
+    sub-cases (e.g. stored dimensional -> requested fraction through loading(), stored fraction -> dimensional through
+    loading_at()) are correct today and stay fully checked."""
+    stored_frac, target_frac, mdiff = _kf_parts(desc)
+    if not mdiff:
+        return False
+    if check_name == "accessor_units":
+        return stored_frac and viol.tag in ("loading_value", "loading_vs_clone")
+    if check_name == "at_foreign_units":
+        return target_frac and viol.tag in ("loading_value", "loading_vs_clone", "input_interpretation")
+    if check_name == "model_accessors":
+        return stored_frac and viol.tag == "model_loading_value"
+    return False
 
 
 def viol_known_class(desc):
     """The loading slice is skipped inside the open-finding class KF-C03-1 (its values are already known to be wrong)."""
-    iso = desc["iso"]
-    stored_l = (iso["units"]["loading_basis"], None)
-    stored_m = (iso["units"]["material_basis"], iso["units"]["material_unit"])
-    req = desc.get("req") or {}
-    rl, rm = req.get("lrep"), req.get("mrep")
-    rl = tuple(rl) if rl else None
-    rm = tuple(rm) if rm else None
-    return (rm is not None and rm != stored_m) and (_frac(stored_l) or _frac(rl))
+    stored_frac, _, mdiff = _kf_parts(desc)
+    return stored_frac and mdiff
 
 
 # ---- strategies ----------------------------------------------------------------------------------------------------------
